@@ -84,7 +84,9 @@ func init() {
 		Rule:   "every civil day 0001-01-01..9998-12-31 (both tiers): zodiac sign compared with the 366-entry month-day table built from the twelve conventional start days, run structure checked along the day order; festival lists compared with reference (k-th / last weekday occurrence from R1, fixed dates from the exported tables); once-per-year counted per year. non-trivial = days carrying at least one festival or lying on a sign boundary",
 		Assume: []string{"conventional sign start days: 3-21,4-20,5-21,6-22,7-23,8-23,9-23,10-24,11-23,12-22,1-20,2-19", "R1 weekday and month lengths"},
 		Shards: func(tier string, seed int64) []Shard {
-			return splitRanges([][2]int{{1, 9998}}, 32, Shard{Tier: tier, Seed: seed})
+			sh := splitRanges([][2]int{{1, 9998}}, 32, Shard{Tier: tier, Seed: seed})
+			// plus the whole range in ONE process, so that years far apart meet the same process-wide state
+			return append(sh, Shard{Kind: "single", Ranges: [][2]int{{1, 9998}}, Tier: tier, Seed: seed})
 		},
 		Run:           runC20,
 		MinNontrivial: 50,
@@ -92,6 +94,7 @@ func init() {
 }
 
 func runC19(w *W) {
+	perturbCache = true
 	// table uniqueness (parser is a function)
 	for _, tb := range [][]string{LunarUtil.NUMBER[:10], LunarUtil.MONTH[1:], LunarUtil.DAY[1:]} {
 		seen := map[string]bool{}
